@@ -139,6 +139,14 @@ def generate(rng, tier):
                 op['base_second'] = 'arr'
         for _ in range(rng.randint(0, 2)):
             ops.insert(rng.randrange(len(ops)),
+                       {'t': 'power_reduce', 's': rng.randrange(nst),
+                        'name': rng.choice(['sum', 'prod', 'min', 'max']),
+                        'fill': 'zero'})
+        if rng.random() < 0.25:
+            # a NaN somewhere (not necessarily in the first part)
+            sp['nan_at'] = [rng.randrange(nst), rng.getrandbits(12)]
+        for _ in range(rng.randint(0, 2)):
+            ops.insert(rng.randrange(len(ops)),
                        {'t': 'np_asarray', 's': rng.randrange(nst),
                         'dtype': rng.choice([None, 'float32', 'complex128',
                                              'float64']), 'fill': 'zero'})
@@ -760,7 +768,50 @@ def _execute_power(plan, ctx, base):
                     ctx.fired('power-element-from-one-array')
         except Exception:
             pass
+    if sp.get('nan_at') and np.dtype(sp['dtype']).kind in 'fc':
+        k_, pos = sp['nan_at']
+        arrs = elem_arrays(xs[k_ % len(xs)])
+        a_ = arrs[pos % len(arrs)]
+        if a_.size:
+            a_[np.unravel_index((pos // 7) % a_.size, a_.shape)] = np.nan
+            ctx.fired('power-nan-entry')
     for op in plan['ops']:
+        if op['t'] == 'power_reduce':
+            # legacy reductions of product-space elements against NumPy on
+            # the stacked array (NaN propagates; sums of parts are re-ordered
+            # sums, hence a tolerance for sum / prod)
+            x = xs[op['s']]
+            full = np.stack([np.asarray(p_.asarray()) for p_ in x.parts])
+            npf = getattr(np, op['name'])
+            try:
+                with np.errstate(all='ignore'):
+                    want = npf(full)
+            except Exception:
+                continue
+            try:
+                with np.errstate(all='ignore'):
+                    got = getattr(x.ufuncs, op['name'])()
+            except Exception as e:
+                raise Violation('C17', 'C17/raise/power/legacy.{}/{}'.format(
+                    op['name'], type(e).__name__),
+                    'X.ufuncs.{}() raised {}: {}'.format(
+                        op['name'], type(e).__name__, str(e)[:120]))
+            with np.errstate(all='ignore'):
+                same = (np.isnan(got) and np.isnan(want)) or got == want
+                if not same and op['name'] in ('sum', 'prod') and \
+                        np.dtype(sp['dtype']).kind in 'fc':
+                    eps_ = np.finfo(np.dtype(sp['dtype'])).eps
+                    same = abs(got - want) <= 64 * full.size * eps_ * (
+                        abs(want) + np.sum(np.abs(full))
+                        if op['name'] == 'sum' else abs(want) + 1e-300)
+            if not same:
+                raise Violation('C17', 'C17/value/power/legacy.' + op['name'],
+                                'X.ufuncs.{}() = {!r} but np.{} of the '
+                                'underlying array gives {!r}'.format(
+                                    op['name'], got, op['name'], want))
+            ctx.step()
+            ctx.covered('legacy.' + op['name'], 'power', sp['dtype'])
+            continue
         if op['t'] == 'np_asarray':
             x = xs[op['s']]
             want = np.stack([np.asarray(p.asarray()) for p in x.parts])
